@@ -121,13 +121,18 @@ class NotInlinable(Exception):
 
 
 def _check_returns(stmts):
-    """returns only at statement-list level or inside if/else"""
-    for s in stmts:
+    """returns only at statement-list level, inside if/else, or inside a try / except (without
+    else / finally) that is the last statement of its block"""
+    for i, s in enumerate(stmts):
         if isinstance(s, ast.Return):
             continue
         if isinstance(s, ast.If):
             _check_returns(s.body)
             _check_returns(s.orelse)
+        elif isinstance(s, ast.Try) and _has_return(s) and not s.orelse and not s.finalbody and i == len(stmts) - 1:
+            _check_returns(s.body)
+            for h in s.handlers:
+                _check_returns(h.body)
         elif _has_return(s):
             raise NotInlinable('return inside %s' % type(s).__name__)
 
@@ -144,6 +149,14 @@ def _eliminate(stmts, sink):
             body = list(s.body) + ([] if _always_ends(s.body) else copy.deepcopy(rest))
             orelse = list(s.orelse) + ([] if _always_ends(s.orelse) else copy.deepcopy(rest))
             new = ast.If(test=s.test, body=_eliminate(body, sink) or [ast.Pass()], orelse=_eliminate(orelse, sink))
+            ast.copy_location(new, s)
+            return out + [new]
+        if isinstance(s, ast.Try) and _has_return(s):
+            # last statement of the block (checked): each arm feeds the sink where it returned;
+            # the returned expression is still evaluated inside the try, as before
+            new = ast.Try(body=_eliminate(list(s.body), sink) or [ast.Pass()],
+                          handlers=[ast.copy_location(ast.ExceptHandler(type=h.type, name=h.name, body=_eliminate(list(h.body), sink) or [ast.Pass()]), h) for h in s.handlers],
+                          orelse=[], finalbody=[])
             ast.copy_location(new, s)
             return out + [new]
         out.append(s)
@@ -365,6 +378,7 @@ class _Site:
 
     def s_Call(self, e):
         f = e.func
+        pure_before = self.pure          # the call's own arguments are evaluated before it anyway
         if isinstance(f, ast.Attribute):
             self.scan(f.value)
         elif not isinstance(f, ast.Name):
@@ -375,7 +389,7 @@ class _Site:
             self.scan(k.value)
         if self.found is not None:
             return
-        if self.pure and self.is_helper_call(e):
+        if pure_before and self.is_helper_call(e):
             self.found = e
             return
         if not (isinstance(f, ast.Name) and f.id in PURE_CALLS):
@@ -620,7 +634,7 @@ class Inliner:
         if isinstance(s, ast.For):
             return [s.iter]
         if isinstance(s, ast.Raise):
-            return [s.exc] if s.exc is not None and s.cause is None else []
+            return [s.exc] if s.exc is not None and (s.cause is None or isinstance(s.cause, ast.Constant)) else []
         if isinstance(s, ast.With):
             return [s.items[0].context_expr]
         return []
@@ -853,8 +867,79 @@ def desugar_super(repo):
     return count
 
 
+class _CompStmt(ast.NodeTransformer):
+    """a comprehension evaluated only for its effects (``[f(x) for x in xs]`` as a statement)
+    is the loop ``for x in xs: f(x)``; the loop variable is renamed when the function already
+    has a local of that name (a comprehension has its own scope, a loop does not)"""
+
+    def __init__(self, taken):
+        self.taken = taken
+        self.n = 0
+
+    def visit_Expr(self, s):
+        v = s.value
+        if not isinstance(v, (ast.ListComp, ast.SetComp, ast.GeneratorExp)) or isinstance(v, ast.GeneratorExp):
+            return s
+        if any(g.is_async for g in v.generators):
+            return s
+        targets = set()
+        for g in v.generators:
+            targets |= _names(g.target, (ast.Store,))
+        ren = {}
+        for t in targets:
+            if t in self.taken:
+                new = t + '__c'
+                while new in self.taken:
+                    new += '_'
+                ren[t] = new
+            self.taken.add(ren.get(t, t))
+        body = [ast.copy_location(ast.Expr(value=v.elt), s)]
+        for g in reversed(v.generators):
+            for cond in reversed(g.ifs):
+                body = [ast.copy_location(ast.If(test=cond, body=body, orelse=[]), s)]
+            body = [ast.copy_location(ast.For(target=g.target, iter=g.iter, body=body, orelse=[]), s)]
+        loop = body[0]
+        if ren:
+            # the outermost iterable is evaluated outside the comprehension's scope
+            it = loop.iter
+            loop.iter = ast.Constant(value=None)
+            loop = _Rename(ren).visit(loop)
+            loop.iter = it
+        self.n += 1
+        return ast.fix_missing_locations(loop)
+
+    def visit_FunctionDef(self, n):
+        return n
+
+    visit_Lambda = visit_ClassDef = visit_AsyncFunctionDef = visit_FunctionDef
+
+
+def comprehension_statements(repo):
+    count = 0
+    for fi in repo.functions.values():
+        if not isinstance(fi.node, ast.FunctionDef):
+            continue
+        t = _CompStmt(_assigned(fi.node) | set(_params(fi.node)) | _names(fi.node))
+
+        def rewrite(stmts):
+            out = []
+            for s_ in stmts:
+                for fld in ('body', 'orelse', 'finalbody'):
+                    b = getattr(s_, fld, None)
+                    if isinstance(b, list) and b and isinstance(b[0], ast.stmt) and not isinstance(s_, (ast.FunctionDef, ast.ClassDef, ast.AsyncFunctionDef)):
+                        setattr(s_, fld, rewrite(b))
+                for h in getattr(s_, 'handlers', []) or []:
+                    h.body = rewrite(h.body)
+                out.append(t.visit_Expr(s_) if isinstance(s_, ast.Expr) else s_)
+            return out
+        fi.node.body = rewrite(fi.node.body)
+        count += t.n
+    return count
+
+
 def inline_helpers(repo):
     repo.desugared_super = desugar_super(repo)
+    repo.comprehension_statements = comprehension_statements(repo)
     inl = Inliner(repo).run()
     repo.inlined = inl.expanded
     repo.helpers = sorted(inl.helpers)
